@@ -1,4 +1,5 @@
 import CatiiProofs.KernTop
+import CatiiProofs.KernManyBounds
 /-!
 # C09 — the kernels never touch memory outside their buffers
 
@@ -7,7 +8,9 @@ with `Err.oobRead/oobWrite`; outputs are written into a buffer of exactly the al
 capacity.  "Returns `.ok`" therefore means: no read outside an input array, no write
 outside the output array.  **No sortedness hypothesis**: the statements quantify over all
 arrays, in particular every empty/non-empty combination and every exhaustion order.
-What is not covered: the C that Cython/gcc generate from the source (trusted), and the
+The k-way union `set_union_merge_many` is modelled the same way (`unionManyChecked`: the concatenation, one
+(pointer, limit) pair per input, the output buffer of `len(values)` words) and `union_many_in_bounds` covers every list
+of arrays, sorted or not.  What is not covered: the C that Cython/gcc generate from the source (trusted), and the
 `int` (32-bit) pointers for arrays of 2^31 or more elements (documented in the source).
 -/
 namespace Catii.C09
@@ -21,6 +24,14 @@ theorem union_in_bounds (L R : Array Nat) : ∃ out, unionK L R = .ok out := by
 
 theorem difference_in_bounds (L R : Array Nat) : ∃ out, diffK L R = .ok out := by
   obtain ⟨out, h, _⟩ := diffK_run L R; exact ⟨out, h⟩
+
+/-- `set_union_merge_many`: for EVERY list of arrays every `values[ptr]` is inside the concatenation of the inputs,
+every `result_view[result_len] = min_value` inside the output buffer, the result is no longer than the concatenation,
+and the `while 1:` loop ends -/
+theorem union_many_in_bounds (arrays : List (Array Nat)) :
+    ∃ out, unionManyChecked arrays = .ok out ∧
+      out.size ≤ ((arrays.map Array.toList).filter (· ≠ [])).flatten.length :=
+  unionManyChecked_ok arrays
 
 /-- the written prefix never exceeds the allocation: `min(len, len)`, `len + len`, `len(left)` -/
 theorem output_fits (L R : Array Nat) :
@@ -70,5 +81,9 @@ theorem historical_guard_reads_out_of_bounds :
 /-! Non-vacuity: unsorted and empty operands are in scope. -/
 example : interK #[3, 1, 2] #[] = .ok #[] ∧ unionK #[3, 1] #[2, 2] = .ok #[2, 2, 3, 1] ∧
     diffK #[] #[1] = .ok #[] := by decide
+
+-- non-vacuity: the extreme row ids together, an empty array in between; an unsorted input is still in bounds
+example : unionManyChecked [#[0, 4294967295], #[], #[3, 7]] = .ok #[0, 3, 7, 4294967295] := by decide +kernel
+example : unionManyChecked [#[0, 4294967295], #[], #[7, 3, 7]] = .ok #[0, 7, 3, 7, 4294967295] := by decide +kernel
 
 end Catii.C09
